@@ -220,7 +220,7 @@ theorem SeqCorr.rq_nodup (C : SeqCorr D f topo regs net) : (regs.map RegI.rq).No
   exact (Option.some.inj h1).symm
 
 theorem SeqCorr.q_not_comb (C : SeqCorr D f topo regs net) (R : RegI) (hR : R ∈ regs) :
-    ∀ c, c ∈ D.combs → c.out ≠ R.leaf.q :=
+    ∀ c, c ∈ D.combs → ∀ o, o ∈ c.outs.map (·.1) → o ≠ R.leaf.q :=
   C.comb.undriven R.rq R.leaf.q (C.name_rq R hR) (C.rq_undriven R hR)
 
 /-- `propagateAll` keeps related states related (the Verilog side does nothing) -/
